@@ -74,3 +74,6 @@ func (blockchain *Blockchain) VerifWaitSnapshots() {
 	blockchain.appDB.WG.Wait()
 	blockchain.wgSnapshot.Wait()
 }
+
+// VerifIsMoreThanTwoThirds exposes the governance threshold comparison.
+func VerifIsMoreThanTwoThirds(voted, total *big.Int) bool { return isMoreThanTwoThirds(voted, total) }
